@@ -227,6 +227,56 @@ func (g *G) genFaults() []Fault {
 	return fs
 }
 
+// genRepeat: a small fixed request alphabet repeated many times (footprint must not grow)
+func (g *G) genRepeat(id string) *History {
+	h := &History{ID: id, Prop: g.prop, Class: "repeat", Backend: "mem", Logger: "discard"}
+	type combo struct {
+		url string
+		hdr Hdr
+	}
+	nres := 1 + g.r.Intn(2)
+	var alphabet []combo
+	var vary []string
+	for i := 0; i < nres; i++ {
+		r := resources[g.r.Intn(len(resources))]
+		v := pick(g, "", "X-A", "*", "X-A, X-B", "X-A, *", "Content-Language")
+		for j := 0; j < 1+g.r.Intn(3); j++ {
+			alphabet = append(alphabet, combo{pick(g, r.spellings...), g.reqHeaders([]string{"X-A", "X-B", "Content-Language"})})
+			vary = append(vary, v)
+		}
+	}
+	n := 20 + g.r.Intn(60)
+	if g.tier == "thorough" {
+		n = 100 + g.r.Intn(400)
+	}
+	at := int64(0)
+	life := pick(g, int64(0), 5, 30, 3600)
+	for i := 0; i < n; i++ {
+		k := g.r.Intn(len(alphabet))
+		c := alphabet[k]
+		v := vary[k]
+		if g.chance(0.05) {
+			v = pick(g, "", "X-A", "*", "X-B")
+		}
+		method := "GET"
+		if g.chance(0.04) {
+			method = pick(g, "POST", "DELETE")
+		}
+		var rp Reply
+		if method == "GET" {
+			rp = g.cacheableReply(at, v, life)
+			if g.chance(0.2) {
+				rp = Reply{Status: 304, Hdr: Hdr{{"Date", dateAt(at, 0)}}, BodyFail: -1}
+			}
+		} else {
+			rp = Reply{Status: 204, Hdr: Hdr{{"Date", dateAt(at, 0)}}, BodyFail: -1}
+		}
+		h.Ops = append(h.Ops, Op{Op: "req", AtNs: at, Method: method, URL: c.url, Hdr: c.hdr, Replies: []Reply{rp}})
+		at += pick(g, int64(1), 2, 10, 40) * sec
+	}
+	return h
+}
+
 // generator classes per property: (weight, class)
 type genClass struct {
 	w int
@@ -267,8 +317,10 @@ func (g *G) classes() []genClass {
 		return []genClass{{8, vary}, {1, faults}, {1, backends}}
 	case "C07":
 		return []genClass{{8, inval}, {2, urls}}
-	case "C08", "C19":
+	case "C08":
 		return []genClass{{5, vary}, {3, grid}, {2, inval}}
+	case "C19":
+		return []genClass{{3, vary}, {1, inval}, {2, func(g *G, id string) *History { return g.genRepeat(id) }}}
 	case "C09":
 		return []genClass{{4, urls}, {3, vary}, {3, backends}}
 	}
